@@ -7,15 +7,24 @@ Correspondence (answer = MODEL, `Model/Cmp.lean`, `Model/Translate.lean`):
   C mshash <ctx> <a> <b>               all words fed to the hasher equal?        same / diff
   C msclone <ctx> <a>                  `Miniscript::clone`                       ast / PANIC
   C translate <ctx> <map> <a>          `translate_pk`                            ast / ERR:K<id> / ERR:H<kind>:<id> / ERR:outer / PANIC
+  C msbranches <ctx> <a>               `branches()`                              ast;ast;… / -
+  C msiter <ctx> <a>                   `iter().collect()`                        ast;ast;…
+  C msnthchild <ctx> <n> <a>           `get_nth_child(n)`                        ast / -
+  C msnthpk <ctx> <n> <a>              `get_nth_pk(n)`                           k / -
+  C thrmap <k> <xs> <c>                `Threshold::map(|x| x + c)`               k|x,x,…
+  C thrtranslate <k> <xs> <fail|->     `translate(|x| if x == fail Err(x) else Ok(2x+1))`   ok:k|…|calls / err:x|calls
+  C thrbyindex <k> <xs> <fail|->       `translate_by_index(|i| if i == fail Err(i) else Ok(3i+1))`
+  C thrpost <k> <xs> <idx> <processed> `map_from_post_order_iter`               k|… / PANIC
   C iterpk <ctx> <a>                   `iter_pk().collect()`                     k,k,… / -
   C foreachkey <ctx> <stop|-> <a>      `for_each_key(|k| k != stop)` with trace  k,k,…|1   (keys visited | result)
   C foranykey <ctx> <hit|-> <a>        `for_any_key(|k| k == hit)` with trace
   C substraw <ctx> <h:k,…|-> <a>       `substitute_raw_pkh`                      ast / PANIC
 
 Judge (answer = SPECIFICATION applied to the implementation's outputs; `ok` or `bad:<why>`):
-  J eqstruct <fam> <a> <b> <==> <cmp> <hash-equal> <display-equal>
+  J eqstruct <fam> <a> <b> <==> <cmp> <hash-equal> <display-equal> <partial_cmp>/<lt><le><gt><ge>
         ok iff (== ⇔ a,b structurally identical) ∧ (cmp = Equal ⇔ ==) ∧ (== ⇒ equal hashes)
-        ∧ (== ⇔ equal string form) ∧ cmp did not panic.  For fam ∈ {bare,legacy,segwitv0,tap}
+        ∧ (== ⇔ equal string form) ∧ cmp did not panic ∧ partial_cmp = Some(cmp) and the
+        operators `<` `<=` `>` `>=` agree with cmp.  For fam ∈ {bare,legacy,segwitv0,tap}
         a,b are wire ASTs and are parsed; otherwise (descriptors, policies) a,b are canonical
         strings and structural identity is string identity.
   J ordlaws <fam> <a> <b> <c> <cmp ab> <cmp bc> <cmp ac> <cmp ba>
@@ -61,6 +70,7 @@ import MsVerif.Model.Translate
 import MsVerif.Driver.PolWire
 import MsVerif.Model.PolicyOrd
 import MsVerif.Model.TranslateDesc
+import MsVerif.Model.ThresholdOps
 import MsVerif.Driver.OpsDesc
 
 namespace MsVerif.Driver
@@ -181,6 +191,10 @@ def translatorOf (name : String) : Option (Translator Nat Atom) :=
     | ["fail", i] => do
       let i ← i.toNat?
       pure ⟨fun k => if k == i then throw (.translatorErr (.key k)) else pure k, fun _ h => pure h⟩
+    -- every key is mapped to its uncompressed form, except key `i`, on which the translator fails
+    | ["uncfail", i] => do
+      let i ← i.toNat?
+      pure ⟨fun k => if k == i then throw (.translatorErr (.key k)) else pure (k % 100 + 100), fun _ h => pure h⟩
     | ["failcall", n] => do
       let n ← n.toNat?
       pure ⟨fun k => do
@@ -287,6 +301,34 @@ def opsCmp (t : Tables) (kind op : String) (args : List String) : Option String 
   | "C", "translate", [ctx, map, a] => do
     let ctx ← parseCtx ctx; let a ← parseAst a
     runTranslate t.keyEnv ctx map a
+  | "C", "msbranches", [_ctx, a] => do
+    let a ← parseAst a
+    pure (if a.branches.isEmpty then "-" else ";".intercalate (a.branches.map showWire))
+  | "C", "msiter", [_ctx, a] => do
+    let a ← parseAst a
+    pure (";".intercalate (a.iterNodes.map showWire))
+  | "C", "msnthchild", [_ctx, n, a] => do
+    let a ← parseAst a; let n ← n.toNat?
+    pure (match a.getNthChild n with | some c => showWire c | none => "-")
+  | "C", "msnthpk", [_ctx, n, a] => do
+    let a ← parseAst a; let n ← n.toNat?
+    pure (match a.getNthPk n with | some k => toString k | none => "-")
+  -- Threshold element-wise operations on plain numbers
+  | "C", "thrmap", [k, xs, c] => do
+    let k ← k.toNat?; let xs ← parseDepthsLike xs; let c ← c.toNat?
+    let r := (Thr.mk k xs).map (· + c)
+    pure (s!"{r.k}|{showKeys r.inner}")
+  | "C", "thrtranslate", [k, xs, failAt] => do
+    let k ← k.toNat?; let xs ← parseDepthsLike xs; let failAt ← parseOptNat failAt
+    let (r, calls) := (Thr.mk k xs).translate (fun x => if some x == failAt then (.error x : Except Nat Nat) else .ok (x * 2 + 1))
+    pure (match r with | .ok r => s!"ok:{r.k}|{showKeys r.inner}|{calls}" | .error e => s!"err:{e}|{calls}")
+  | "C", "thrbyindex", [k, xs, failAt] => do
+    let k ← k.toNat?; let xs ← parseDepthsLike xs; let failAt ← parseOptNat failAt
+    let (r, calls) := (Thr.mk k xs).translateByIndex (fun i => if some i == failAt then (.error i : Except Nat Nat) else .ok (i * 3 + 1))
+    pure (match r with | .ok r => s!"ok:{r.k}|{showKeys r.inner}|{calls}" | .error e => s!"err:{e}|{calls}")
+  | "C", "thrpost", [k, xs, idx, processed] => do
+    let k ← k.toNat?; let xs ← parseDepthsLike xs; let idx ← parseDepthsLike idx; let pr ← parseDepthsLike processed
+    pure (match (Thr.mk k xs).mapFromPostOrder idx pr with | some r => s!"{r.k}|{showKeys r.inner}" | none => "PANIC")
   | "C", "iterpk", [_ctx, a] => do
     let a ← parseAst a
     pure (showKeys a.iterPkLit)
@@ -299,15 +341,18 @@ def opsCmp (t : Tables) (kind op : String) (args : List String) : Option String 
   | "C", "substraw", [_ctx, map, a] => do
     let a ← parseAst a; let map ← parseRawMap map
     pure (match substituteRawPkh (fun h => map.lookup h) a with | .ok m => showWire m | .error _ => "PANIC")
-  | "J", "eqstruct", [fam, a, b, eq, cmp, hsh, dsp] => do
+  | "J", "eqstruct", [fam, a, b, eq, cmp, hsh, dsp, pcmp] => do
     let same ← structEq fam a b
     let eq := eq == "1"
+    -- `partial_cmp` must be `Some(cmp)` and `<`, `<=`, `>`, `>=` must be the ones `cmp` defines
+    let wantPc := if cmp == "lt" then "lt/1100" else if cmp == "eq" then "eq/0101" else "gt/0011"
     pure (
       if !isOrd cmp then "bad:cmp-" ++ cmp
       else if eq != same then "bad:eq-vs-structure"
       else if (cmp == "eq") != eq then "bad:cmp-vs-eq"
       else if eq && hsh != "same" then "bad:hash"
       else if (dsp == "1") != eq then "bad:display"
+      else if pcmp != wantPc then "bad:partial_cmp-" ++ pcmp
       else "ok")
   | "J", "ordlaws", [fam, a, b, c, ab, bc, ac, ba] => do
     let sab ← structEq fam a b; let sbc ← structEq fam b c; let sac ← structEq fam a c
@@ -429,7 +474,7 @@ def opsCmp (t : Tables) (kind op : String) (args : List String) : Option String 
     let P := DescOps.descParams t
     let leavesOf : Desc.Desc → List Bytes := fun d =>
       match d with | .tr _ ls => (Desc.trLeafScripts P ls).map (·.2) | _ => []
-    pure (if l0 != hexList (leavesOf d) then "bad:original-leaves"
+    pure (if l0 != "skip" && l0 != hexList (leavesOf d) then "bad:original-leaves"
       else if l1 != hexList (leavesOf (d.mapKeys m.f m.g)) then "bad:translated-leaves" else "ok")
   -- verdict of a structural self-check on a descriptor that was computed by the harness
   -- (identity / inverse translation, re-parse, script_pubkey, key visits): ok iff `pass`
